@@ -1,4 +1,538 @@
 package driver
 
-func CmdCheck(args []string) int  { return 2 }
-func CmdReplay(args []string) int { return 2 }
+import (
+	"encoding/json"
+	"flag"
+	"fmt"
+	"os"
+	"os/exec"
+	"path/filepath"
+	"sort"
+	"strconv"
+	"strings"
+	"time"
+
+	"verif/engine/interp"
+)
+
+const VerifDir = "/verif"
+
+type EntrySpec struct {
+	Pkg           string         `json:"pkg"`
+	Func          string         `json:"func"`
+	Covers        []string       `json:"covers"`
+	MapOrderAll   bool           `json:"map_order_all"`
+	SymbolicNanos bool           `json:"symbolic_nanos"`
+	Quick         map[string]int `json:"quick"`
+	Thorough      map[string]int `json:"thorough"`
+	ThoroughOnly  bool           `json:"thorough_only"`
+	MaxPaths      int            `json:"max_paths"`
+	MaxSteps      int            `json:"max_steps"`
+	MaxSeconds    int            `json:"max_seconds"`
+}
+
+type CheckSpec struct {
+	Title       string      `json:"title"`
+	Entries     []EntrySpec `json:"entries"`
+	Assumptions []string    `json:"assumptions"`
+	Bounds      string      `json:"bounds_note"`
+	Outside     []string    `json:"outside_claim"`
+}
+
+type KnownFinding struct {
+	ID       string `json:"id"`
+	Property string `json:"property"`
+	Status   string `json:"status"` // "open" | "fixed"
+	What     string `json:"what"`
+	Region   string `json:"region,omitempty"`
+	Commit   string `json:"commit,omitempty"`
+}
+
+type ReplayFile struct {
+	Property  string             `json:"property"`
+	Pkg       string             `json:"pkg"`
+	Func      string             `json:"func"`
+	Label     string             `json:"label"`
+	Nondet    map[string]uint64  `json:"nondet"`
+	Bounds    map[string]int     `json:"bounds"`
+	Decisions []interp.Decision  `json:"decisions,omitempty"`
+	Observed  []string           `json:"observed,omitempty"`
+	Meta      map[string]string  `json:"meta,omitempty"`
+}
+
+func loadJSON(path string, v interface{}) error {
+	data, err := os.ReadFile(path)
+	if err != nil {
+		return err
+	}
+	return json.Unmarshal(data, v)
+}
+
+func CmdCheck(args []string) int {
+	fs := flag.NewFlagSet("check", flag.ExitOnError)
+	tier := fs.String("tier", "", "quick|thorough")
+	workers := fs.Int("workers", 16, "")
+	verbose := fs.Bool("v", false, "")
+	noReplay := fs.Bool("no-replay", false, "skip native replay of counterexamples (debugging)")
+	only := fs.String("only", "", "run only this entry function (debugging)")
+	fs.Parse(args)
+	if fs.NArg() < 1 {
+		fmt.Fprintln(os.Stderr, "usage: verif check [--tier quick|thorough] <property id>")
+		return 2
+	}
+	id := fs.Arg(0)
+	if *tier == "" {
+		*tier = os.Getenv("VERIF_TIER")
+	}
+	if *tier == "" {
+		*tier = "quick"
+	}
+	seed, _ := strconv.Atoi(os.Getenv("VERIF_SEED"))
+	t0 := time.Now()
+
+	var specs map[string]CheckSpec
+	if err := loadJSON(filepath.Join(VerifDir, "checks.json"), &specs); err != nil {
+		fmt.Fprintln(os.Stderr, "checks.json:", err)
+		return 2
+	}
+	spec, ok := specs[id]
+	if !ok {
+		fmt.Fprintln(os.Stderr, "no check for", id)
+		return 2
+	}
+	var known []KnownFinding
+	loadJSON(filepath.Join(VerifDir, "known_findings.json"), &known)
+	knownOpen := map[string]bool{}
+	knownByID := map[string]KnownFinding{}
+	for _, k := range known {
+		knownByID[k.ID] = k
+		if k.Status == "open" && k.Property == id {
+			knownOpen[k.ID] = true
+		}
+	}
+
+	pkgSet := map[string]bool{}
+	var pkgs []string
+	for _, e := range spec.Entries {
+		if !pkgSet[e.Pkg] {
+			pkgSet[e.Pkg] = true
+			pkgs = append(pkgs, e.Pkg)
+		}
+	}
+	ev := newEvidence(id, *tier, seed)
+	ev.Assumptions = spec.Assumptions
+	finish := func(code int, problems []string) int {
+		ev.WallS = time.Since(t0).Seconds()
+		ev.Coverage["inconclusive_reasons"] = problems
+		ev.Coverage["verdict"] = map[int]string{0: "holds within bounds", 1: "violation", 2: "inconclusive"}[code]
+		writeEvidence(id, ev)
+		return code
+	}
+	prog, err := Load(filepath.Join(VerifDir, "harness"), pkgs)
+	if err != nil {
+		fmt.Fprintln(os.Stderr, err)
+		ev.Coverage["explanation"] = "load failed: " + err.Error()
+		return finish(2, []string{"load failed"})
+	}
+	loadTime := time.Since(t0)
+
+	var problems []string
+	violations := 0
+	knownPrinted := map[string]bool{}
+	totalPaths, totalDecisions, replays, replaysOK := 0, 0, 0, 0
+	var entriesEv []map[string]interface{}
+	funcsAll := map[string]int{}
+	stubsAll := map[string]int{}
+	var samples []interface{}
+	distinct := 0
+	var solverQueries, solverSat, solverUnsat, solverUnknown int
+	var solverTime time.Duration
+	assertsTotal, assertsSym := 0, 0
+
+	for _, e := range spec.Entries {
+		if *only != "" && e.Func != *only {
+			continue
+		}
+		if e.ThoroughOnly && *tier != "thorough" {
+			continue
+		}
+		bounds := e.Quick
+		if *tier == "thorough" && e.Thorough != nil {
+			bounds = map[string]int{}
+			for k, v := range e.Quick {
+				bounds[k] = v
+			}
+			for k, v := range e.Thorough {
+				bounds[k] = v
+			}
+		}
+		if bounds == nil {
+			bounds = map[string]int{}
+		}
+		bounds["seed"] = seed
+		entry, err := prog.Entry(e.Pkg, e.Func)
+		if err != nil {
+			fmt.Fprintln(os.Stderr, err)
+			problems = append(problems, err.Error())
+			continue
+		}
+		cfg := interp.Config{MapOrderAll: e.MapOrderAll, SymbolicNanos: e.SymbolicNanos, Bounds: bounds, KnownOpen: knownOpen, MaxSteps: e.MaxSteps}
+		if *tier == "thorough" {
+			cfg.TimeoutMs = 120000
+		}
+		maxSec := e.MaxSeconds
+		if maxSec == 0 {
+			maxSec = 600
+			if *tier == "thorough" {
+				maxSec = 3000
+			}
+		}
+		rep, err := interp.Explore(prog.Prog, entry, cfg, interp.ExploreOpts{Workers: *workers, MaxPaths: e.MaxPaths, Verbose: *verbose,
+			Deadline: time.Now().Add(time.Duration(maxSec) * time.Second)})
+		if err != nil {
+			fmt.Fprintln(os.Stderr, err)
+			problems = append(problems, err.Error())
+			continue
+		}
+		totalPaths += rep.Paths
+		totalDecisions += rep.Decisions
+		distinct += len(rep.PathSigs)
+		assertsTotal += rep.Asserts
+		assertsSym += rep.AssertsSym
+		solverQueries += rep.Solver.Queries
+		solverSat += rep.Solver.Sat
+		solverUnsat += rep.Solver.Unsat
+		solverUnknown += rep.Solver.Unknown
+		solverTime += rep.Solver.Time
+		for k, v := range rep.Funcs {
+			funcsAll[k] += v
+		}
+		for k, v := range rep.Stubs {
+			stubsAll[k] += v
+		}
+		for _, s := range rep.Samples {
+			if len(samples) < 10 {
+				samples = append(samples, map[string]interface{}{"entry": e.Func, "path": s})
+			}
+		}
+		if rep.Truncated {
+			problems = append(problems, e.Func+": exploration truncated (path or time limit) — reduce the bound")
+		}
+		for msg, n := range rep.Unsupported {
+			problems = append(problems, fmt.Sprintf("%s: %d path(s) hit unsupported operation: %s", e.Func, n, msg))
+		}
+		for msg, n := range rep.Bounds {
+			problems = append(problems, fmt.Sprintf("%s: %d path(s) exhausted a bound: %s", e.Func, n, msg))
+		}
+		if rep.Unknowns > 0 {
+			problems = append(problems, fmt.Sprintf("%s: %d solver answers unknown", e.Func, rep.Unknowns))
+		}
+		if rep.Solver.Errors > 0 {
+			problems = append(problems, fmt.Sprintf("%s: %d solver error lines", e.Func, rep.Solver.Errors))
+		}
+		for _, c := range e.Covers {
+			if rep.Covers[c] == 0 {
+				problems = append(problems, fmt.Sprintf("%s: cover point %q not reached (vacuity guard)", e.Func, c))
+			}
+		}
+		if rep.Asserts == 0 && len(rep.Violations) == 0 {
+			problems = append(problems, e.Func+": no assertion was reached")
+		}
+		for msg, n := range rep.Panics {
+			// a panic escaping the harness entry is itself a violation of "no crash" unless the harness catches it
+			problems = append(problems, fmt.Sprintf("%s: %d path(s) ended in an uncaught panic: %s", e.Func, n, msg))
+		}
+		// violations
+		newByLabel := map[string]int{}
+		for i, v := range rep.Violations {
+			if v.Known != "" {
+				if !knownPrinted[v.Known] {
+					knownPrinted[v.Known] = true
+					fmt.Printf("KNOWN-FINDING: property=%s %s: %s\n", id, v.Known, knownByID[v.Known].What)
+				}
+				continue
+			}
+			newByLabel[v.Label]++
+			if newByLabel[v.Label] > 1 {
+				continue
+			}
+			rf := ReplayFile{Property: id, Pkg: e.Pkg, Func: e.Func, Label: v.Label, Nondet: v.Nondet, Bounds: bounds,
+				Decisions: v.Decisions, Observed: v.Observed}
+			dir := filepath.Join(VerifDir, "replays", id)
+			os.MkdirAll(dir, 0o755)
+			path := filepath.Join(dir, fmt.Sprintf("%s-%s-%d.json", e.Func, sanitize(v.Label), i))
+			data, _ := json.MarshalIndent(rf, "", " ")
+			os.WriteFile(path, data, 0o644)
+			confirmed := true
+			detail := ""
+			if !*noReplay {
+				replays++
+				confirmed, detail = NativeReplay(rf, path)
+				if confirmed {
+					replaysOK++
+				}
+			}
+			if confirmed {
+				violations++
+				fmt.Printf("VIOLATION property=%s replay=%s\n", id, path)
+				fmt.Printf("  assertion %q fails in %s; witness: %s\n", v.Label, e.Func, witnessString(v))
+			} else {
+				problems = append(problems, fmt.Sprintf("%s: counterexample for %q did not reproduce natively (%s) — encoding or stub suspected; replay file %s", e.Func, v.Label, detail, path))
+				fmt.Printf("UNCONFIRMED property=%s label=%s replay=%s (%s)\n", id, v.Label, path, detail)
+			}
+		}
+		entriesEv = append(entriesEv, map[string]interface{}{
+			"entry": e.Pkg + "." + e.Func, "bounds": bounds, "paths": rep.Paths, "path_ends": rep.Ends, "decisions": rep.Decisions,
+			"instructions_interpreted": rep.Steps, "assertions_discharged": rep.Asserts, "assertions_decided_by_solver": rep.AssertsSym,
+			"cover_points": rep.Covers, "solver_queries": rep.Solver.Queries, "solver_time_s": rep.Solver.Time.Seconds(),
+			"max_query_s": rep.Solver.MaxQuery.Seconds(), "wall_s": rep.Wall.Seconds(), "map_order_all": e.MapOrderAll,
+			"violations_found": len(rep.Violations), "init_problems": rep.InitProblems,
+		})
+		if *verbose {
+			fmt.Fprintf(os.Stderr, "%s: paths=%d ends=%v asserts=%d/%d queries=%d solver=%.1fs wall=%.1fs\n", e.Func, rep.Paths, rep.Ends,
+				rep.AssertsSym, rep.Asserts, rep.Solver.Queries, rep.Solver.Time.Seconds(), rep.Wall.Seconds())
+		}
+	}
+
+	// evidence
+	var encoded, stubs []string
+	for k := range funcsAll {
+		if strings.Contains(k, "heimdall") && !strings.Contains(k, "Verif") && !strings.Contains(k, "verif") {
+			encoded = append(encoded, k)
+		}
+	}
+	sort.Strings(encoded)
+	nLib := len(funcsAll) - len(encoded)
+	for k := range stubsAll {
+		if !strings.Contains(k, "verifapi") {
+			stubs = append(stubs, k)
+		}
+	}
+	sort.Strings(stubs)
+	ev.Violations = violations
+	if totalPaths < 1 {
+		totalPaths = 0
+	}
+	ev.Coverage["states"] = totalPaths
+	ev.Coverage["transitions"] = totalDecisions
+	ev.Coverage["traces_validated_against_impl"] = replaysOK
+	ev.Coverage["native_replays_attempted"] = replays
+	ev.Coverage["evaluations"] = totalPaths
+	ev.Coverage["distinct_nontrivial"] = distinct
+	ev.Coverage["rule"] = "one evaluation = one feasible symbolic path of a harness entry (a path condition with a satisfying model; it stands for all inputs satisfying it); distinct = different (end kind, cover points) signatures"
+	if len(samples) == 0 {
+		samples = append(samples, "no path explored")
+	}
+	ev.Coverage["samples"] = samples
+	ev.Coverage["entries"] = entriesEv
+	ev.Coverage["functions_encoded_heimdall"] = encoded
+	ev.Coverage["functions_encoded_library_count"] = nLib
+	ev.Coverage["intrinsics_and_stubs_hit"] = stubs
+	ev.Coverage["assertion_obligations"] = assertsTotal
+	ev.Coverage["assertion_obligations_decided_by_solver"] = assertsSym
+	ev.Coverage["solver"] = map[string]interface{}{"kind": "z3 4.8.12 (-in, incremental); fallback z3-new 5.1.0, cvc5", "queries": solverQueries,
+		"sat": solverSat, "unsat": solverUnsat, "unknown": solverUnknown, "time_s": solverTime.Seconds()}
+	ev.Coverage["load_s"] = loadTime.Seconds()
+	ev.Coverage["bounds_note"] = spec.Bounds
+	ev.Coverage["outside_claim"] = spec.Outside
+	ev.Coverage["known_findings_reported"] = keys(knownPrinted)
+	ev.Coverage["explanation"] = "symbolic execution of the real code from go/ssa (regenerated from /repo on this run); every assertion is decided by the SMT solver for all values of the symbolic inputs on each path within the stated bounds"
+	ev.Coverage["exhaustive"] = len(problems) == 0
+
+	code := 0
+	if violations > 0 {
+		code = 1
+	} else if len(problems) > 0 {
+		code = 2
+		for _, p := range problems {
+			fmt.Fprintln(os.Stderr, "INCONCLUSIVE:", p)
+		}
+	}
+	fmt.Fprintf(os.Stderr, "%s %s: paths=%d assertions=%d (solver-decided %d) queries=%d violations=%d known=%d wall=%.1fs exit=%d\n",
+		id, *tier, totalPaths, assertsTotal, assertsSym, solverQueries, violations, len(knownPrinted), time.Since(t0).Seconds(), code)
+	return finish(code, problems)
+}
+
+func keys(m map[string]bool) []string {
+	r := []string{}
+	for k := range m {
+		r = append(r, k)
+	}
+	sort.Strings(r)
+	return r
+}
+
+func sanitize(s string) string {
+	var sb strings.Builder
+	for _, r := range s {
+		if (r >= 'a' && r <= 'z') || (r >= 'A' && r <= 'Z') || (r >= '0' && r <= '9') || r == '-' {
+			sb.WriteRune(r)
+		} else {
+			sb.WriteByte('_')
+		}
+	}
+	return sb.String()
+}
+
+func witnessString(v interp.Violation) string {
+	var parts []string
+	names := append([]string(nil), v.Order...)
+	for k := range v.Nondet {
+		if strings.HasPrefix(k, "choice:") {
+			names = append(names, k)
+		}
+	}
+	for i, n := range names {
+		if i >= 24 {
+			parts = append(parts, "…")
+			break
+		}
+		parts = append(parts, fmt.Sprintf("%s=%d", n, int64(v.Nondet[n])))
+	}
+	return strings.Join(parts, " ")
+}
+
+// ---- evidence ----
+
+type Evidence struct {
+	PropertyID  string                 `json:"property_id"`
+	Tier        string                 `json:"tier"`
+	Seed        int                    `json:"seed"`
+	Level       string                 `json:"level"`
+	Coverage    map[string]interface{} `json:"coverage"`
+	Assumptions []string               `json:"assumptions"`
+	WallS       float64                `json:"wall_s"`
+	Violations  int                    `json:"violations"`
+}
+
+func newEvidence(id, tier string, seed int) *Evidence {
+	return &Evidence{PropertyID: id, Tier: tier, Seed: seed, Level: "model_checking", Coverage: map[string]interface{}{}}
+}
+
+func writeEvidence(id string, ev *Evidence) {
+	os.MkdirAll(filepath.Join(VerifDir, "evidence"), 0o755)
+	data, _ := json.MarshalIndent(ev, "", " ")
+	os.WriteFile(filepath.Join(VerifDir, "evidence", id+".json"), data, 0o644)
+}
+
+// ---- native replay ----
+
+// NativeReplay compiles the harness into the real package (go test -overlay)
+// and runs the entry on the concrete values of the counterexample.
+func NativeReplay(rf ReplayFile, path string) (bool, string) {
+	tmp, err := os.MkdirTemp("", "verif-replay-")
+	if err != nil {
+		return false, err.Error()
+	}
+	defer os.RemoveAll(tmp)
+	harnessDir := filepath.Join(VerifDir, "harness")
+	replace := map[string]string{}
+	filepath.Walk(harnessDir, func(p string, info os.FileInfo, err error) error {
+		if err == nil && !info.IsDir() && strings.HasSuffix(p, ".go") {
+			rel, _ := filepath.Rel(harnessDir, p)
+			replace[filepath.Join(RepoDir, rel)] = p
+		}
+		return nil
+	})
+	// package name of the target package
+	pkgName, err := packageName(filepath.Join(RepoDir, rf.Pkg))
+	if err != nil {
+		pkgName, err = packageName(filepath.Join(harnessDir, rf.Pkg))
+	}
+	if err != nil {
+		return false, err.Error()
+	}
+	testSrc := fmt.Sprintf("//go:build verif\n\npackage %s\n\nimport (\n\t\"testing\"\n\n\t\"%s/internal/verifapi\"\n)\n\nfunc TestVerifReplay(t *testing.T) { verifapi.RunReplay(t, %s) }\n", pkgName, Module, rf.Func)
+	testFile := filepath.Join(tmp, "zz_verif_replay_test.go")
+	os.WriteFile(testFile, []byte(testSrc), 0o644)
+	replace[filepath.Join(RepoDir, rf.Pkg, "zz_verif_replay_test.go")] = testFile
+	ovData, _ := json.Marshal(map[string]interface{}{"Replace": replace})
+	ovFile := filepath.Join(tmp, "overlay.json")
+	os.WriteFile(ovFile, ovData, 0o644)
+	bin := filepath.Join(tmp, "replay.test")
+	env := append(os.Environ(), "GOFLAGS=-mod=mod", "GOPROXY=off", "GOSUMDB=off", "GOTOOLCHAIN=local", "VERIF_REPLAY="+path)
+	build := exec.Command("go", "test", "-c", "-o", bin, "-tags", "verif", "-vet=off", "-overlay", ovFile, "./"+rf.Pkg+"/")
+	build.Dir = RepoDir
+	build.Env = env
+	if bout, err := build.CombinedOutput(); err != nil {
+		os.WriteFile(path+".log", bout, 0o644)
+		return false, "native build of the harness failed (see " + path + ".log)"
+	}
+	cmd := exec.Command(bin, "-test.run", "^TestVerifReplay$", "-test.count=1", "-test.timeout", "300s")
+	cmd.Dir = filepath.Join(RepoDir, rf.Pkg)
+	if _, err := os.Stat(cmd.Dir); err != nil {
+		cmd.Dir = tmp
+	}
+	cmd.Env = env
+	out, _ := cmd.CombinedOutput()
+	txt := string(out)
+	os.WriteFile(path+".log", out, 0o644)
+	for _, ln := range strings.Split(txt, "\n") {
+		if strings.HasPrefix(ln, "REPLAY-FAILED: ") {
+			got := strings.TrimPrefix(ln, "REPLAY-FAILED: ")
+			if got == rf.Label {
+				return true, "assertion " + got + " failed natively"
+			}
+			if got == "panic" && strings.Contains(rf.Label, "panic") {
+				return true, "panic reproduced natively"
+			}
+		}
+	}
+	for _, ln := range strings.Split(txt, "\n") {
+		if strings.HasPrefix(ln, "REPLAY-") || strings.Contains(ln, "FAIL") || strings.Contains(ln, "panic") {
+			return false, strings.TrimSpace(ln)
+		}
+	}
+	if strings.Contains(txt, "PASS") {
+		return false, "native run passed"
+	}
+	return false, "native run inconclusive (see " + path + ".log)"
+}
+
+func packageName(dir string) (string, error) {
+	ents, err := os.ReadDir(dir)
+	if err != nil {
+		return "", err
+	}
+	for _, e := range ents {
+		if strings.HasSuffix(e.Name(), ".go") && !strings.HasSuffix(e.Name(), "_test.go") {
+			data, err := os.ReadFile(filepath.Join(dir, e.Name()))
+			if err != nil {
+				continue
+			}
+			for _, ln := range strings.Split(string(data), "\n") {
+				if strings.HasPrefix(ln, "package ") {
+					return strings.Fields(ln)[1], nil
+				}
+			}
+		}
+	}
+	return "", fmt.Errorf("no package clause found in %s", dir)
+}
+
+func CmdReplay(args []string) int {
+	if len(args) < 1 {
+		fmt.Fprintln(os.Stderr, "usage: verif replay <replay file>")
+		return 2
+	}
+	var rf ReplayFile
+	if err := loadJSON(args[0], &rf); err != nil {
+		fmt.Fprintln(os.Stderr, err)
+		return 2
+	}
+	abs, _ := filepath.Abs(args[0])
+	ok, detail := NativeReplay(rf, abs)
+	fmt.Println(detail)
+	if data, err := os.ReadFile(abs + ".log"); err == nil {
+		for _, ln := range strings.Split(string(data), "\n") {
+			if strings.HasPrefix(ln, "REPLAY-") {
+				fmt.Println(ln)
+			}
+		}
+	}
+	if ok {
+		fmt.Printf("VIOLATION property=%s replay=%s\n", rf.Property, abs)
+		return 1
+	}
+	return 0
+}
